@@ -3,7 +3,13 @@
 Rule-table oracle over the *reported* state (System State tag, control-state message built by the real
 EngineMessageBuilder, Run Id tag, result of user requests). Deliberately no prediction of post-states: commands are
 queued, Stop takes two ticks, a command accepted while a Stop is in flight legitimately ends in Stopped
-(see DESIGN.md C06 and section 8)."""
+(see DESIGN.md C06 and section 8).
+
+What ties the reported transitions to the commands without predicting them is a *request budget*: every Restarting
+window, every run (fresh Run Id / on_start) and every run end (Run Id gone / on_stop) must be paid for by a request of
+its own - counted over the whole engine lifetime, so that nothing left behind by an earlier Start/Restart/Stop cycle
+can restart, start or end a later run. The lifetime families (L, M, S) drive several run cycles per engine and place
+the next request in every tick gap around the completion of the previous one."""
 from __future__ import annotations
 
 import random
@@ -13,8 +19,9 @@ from opv.core import Result
 ID = "C06"
 LEVEL = "exploration"
 TECHNIQUE = ("runtime monitoring: rule table over reported state (System State tag vs control-state message, "
-             "request acceptance vs validity in the reported state, Run Id discipline) after every tick of "
-             "enumerated command sequences")
+             "request acceptance vs validity in the reported state, Run Id discipline, request budget of Restarting "
+             "windows / runs / run ends) after every tick of enumerated command sequences and enumerated multi-cycle "
+             "lifetimes")
 RULE = ("alphabet of 14 symbols = 7 user control commands (Start Stop Pause Unpause Hold Unhold Restart) + bare tick + "
         "6 method-issued commands injected into the running method (Pause, Pause: 0.2s, Hold, Hold: 0.2s, Stop, "
         "Restart). ENUMERATED: every sequence of exactly L symbols, each symbol followed by one tick, from the stopped "
@@ -22,7 +29,14 @@ RULE = ("alphabet of 14 symbols = 7 user control commands (Start Stop Pause Unpa
         "L=4 quick, L=5 thorough; every sequence of L-1 symbols under every tick mask (which symbols are followed by "
         "a tick, so that several requests land in one tick); every sequence of L-1 symbols on 5 methods that issue "
         "Stop / Restart / Pause / Hold: 0.3s / timed Pause themselves. SAMPLED: seeded random sequences of length "
-        "6-12 with random masks and methods. distinct = the (method, sequence, mask) triple; non-trivial = at least "
+        "6-12 with random masks and methods. LIFETIMES (several run cycles on one engine): a step is a cycle command "
+        "(user Start / Stop / Restart) followed by d ticks, d = c-1 .. c+2 around its nominal completion c (Start 1, "
+        "Stop 2, Restart 3 ticks), i.e. the next request lands in the tick of completion, in the tick gap right after "
+        "the completion was reported, or 1 / 2 ticks later; 12 step kinds. ENUMERATED: a first Start followed by 0..3 "
+        "ticks, then every sequence of L-1 steps (base method); on each of the 5 self-commanding methods a first Start "
+        "followed by 1..12 ticks, then every sequence of L-2 steps. SAMPLED: lifetimes of 5-9 steps over a wider "
+        "alphabet (pause/hold commands, injected Stop/Restart/Pause/Hold, the method loaded again while Stopped). "
+        "distinct = the (method, sequence, mask) triple; non-trivial = at least "
         "one request accepted and a state other than Stopped observed")
 ASSUMPTIONS = [
     "'state at the time of the request' = System State tag and control-state message read immediately before the "
@@ -32,6 +46,16 @@ ASSUMPTIONS = [
     "Restarting is legitimate only while a Restart command is in progress (resident in the engine's command registry) "
     "after a Restart was accepted from the user or issued by the method at some earlier point of the history; the "
     "window lasts at most 3 tick ends and is followed by Stopped or Running",
+    "request budget (reading of 'Restarting only during a restart', 'Stopped exactly when no run is active', 'every "
+    "run gets a fresh run id that is cleared when the run ends' for a history of *commands*): requests = user requests "
+    "accepted + Start/Stop/Restart lines of the method or of injected code reaching Engine.schedule_execution, counted "
+    "from the creation of the engine. At every tick end: Restarting windows so far <= Restart requests so far; distinct "
+    "Run Ids shown and on_start events so far <= Start + Restart requests so far; Run Ids gone and on_stop events so "
+    "far <= Stop + Restart requests so far. Per run: a Restarting window that opens while a Run Id is shown needs a "
+    "Restart requested since the tick that first showed that id began (requests made in the gap before that tick "
+    "included); a Run Id shown at one tick end and gone at the next needs a Stop or Restart requested in that span. "
+    "Upper bounds only: a rejected, cancelled or failed request still counts, which of two racing requests wins is not "
+    "judged, and a request made during the run may be honoured several ticks later",
     "bounded progress (reading of 'Stop is valid/accepted'): after an accepted user Stop some tick end within the "
     "next 4 ticks shows Stopped; the obligation is void (counted) when a Restart has been requested anywhere in the "
     "history, because a Restart cancels a Stop in flight and the property does not say which wins",
@@ -41,7 +65,14 @@ ASSUMPTIONS = [
 ]
 REQUIRED = {"agree_checks": 300000, "gating_accepted": 10000, "gating_rejected": 50000, "runid_checks": 300000,
             "restart_windows": 1000, "stop_progress_checks": 800, "states_seen_Paused": 8000, "states_seen_Holding": 8000,
-            "paused_and_holding_ticks": 1500, "new_run_ids": 8000}
+            "paused_and_holding_ticks": 1500, "new_run_ids": 8000,
+            # request budget judged; lifetimes with a later run cycle reached, incl. a Start in the tick gap in which the
+            # completion of the previous Stop was reported, on an engine that has restarted before
+            "request_budget_checks": 400000, "restart_budget_checks_with_window": 50000,
+            "run_end_justification_checks": 10000, "restart_window_justification_checks": 5000,
+            "runs_after_an_earlier_cycle": 8000,
+            "later_cycle_starts_in_completion_gap": 500, "later_cycle_starts_in_completion_gap_after_a_restart": 300,
+            "cases_L": 6000, "cases_M": 8000, "cases_S": 1500}
 EXHAUSTIVE_ALL = False
 
 USER = ["Start", "Stop", "Pause", "Unpause", "Hold", "Unhold", "Restart"]
@@ -56,6 +87,41 @@ METHODS = [
     "Base: s\nHold: 0.3s\nWait: 0.1s\nRestart\n",
 ]
 SETTLE = 6
+
+# ---- lifetime strata (several run cycles in one engine lifetime) -----------------------------------------------
+# A lifetime is a list of steps (request, d) = the request followed by d ticks; it is flattened into the ordinary
+# (seq, mask) form, so driving, judging and replay are the same as for the other families. For a cycle command the gap d
+# is taken relative to its nominal completion c (Start 1 tick, Stop 2, Restart 3): d in c-1 .. c+2, i.e. the next request
+# lands in the tick in which the previous one completes, in the tick gap in which its completion has just been
+# reported (0 ticks after it), or 1 or 2 ticks after it.
+CYCLE = ["u:Start", "u:Stop", "u:Restart"]
+NOMINAL = {"Start": 1, "Stop": 2, "Restart": 3}
+CYCLE_STEPS = [(c, NOMINAL[c[2:]] - 1 + j) for c in CYCLE for j in range(4)]      # 12 step kinds
+FIRST_STEPS = [("u:Start", d) for d in range(4)]
+METHOD_FIRST_GAPS = list(range(1, 13))      # first Start on a self-commanding method: every phase of its own schedule
+RELOAD = "m:reload"                         # the same method is loaded again (Engine.set_method) while Stopped
+WIDE = (["u:Start", "u:Stop", "u:Restart"] * 4 + ["u:Pause", "u:Unpause", "u:Hold", "u:Unhold", "i:Stop", "i:Restart",
+        "i:Pause", "i:Hold: 0.2s", "i:Pause: 0.2s", RELOAD])
+
+
+def flatten(steps) -> tuple[list[str], list[int]]:
+    seq: list[str] = []
+    mask: list[int] = []
+    for sym, d in steps:
+        seq.append(sym)
+        mask.append(1 if d >= 1 else 0)
+        for _ in range(d - 1):
+            seq.append("tick")
+            mask.append(1)
+    return seq, mask
+
+
+def _steps_from_index(idx: int, k: int) -> list[tuple[str, int]]:
+    out = []
+    for _ in range(k):
+        out.append(CYCLE_STEPS[idx % len(CYCLE_STEPS)])
+        idx //= len(CYCLE_STEPS)
+    return out[::-1]
 
 
 # ---------------------------------------------------------------------------------------------------------------
@@ -102,6 +168,39 @@ def cases_for_shard(spec):
             if k % of == sh:
                 yield "C", {"method": meth, "seq": _seq_from_index(idx, Lb), "mask": None}
             k += 1
+    # family L: lifetimes of K = L cycle steps on the base method: a first Start followed by 0..3 ticks, then every
+    # sequence of K-1 steps out of the 12 (cycle command, gap) kinds
+    K = L
+    nst = len(CYCLE_STEPS)
+    k = 0
+    for first in FIRST_STEPS:
+        for idx in range(nst ** (K - 1)):
+            if k % of == sh:
+                seq, mask = flatten([first] + _steps_from_index(idx, K - 1))
+                yield "L", {"method": BASE_METHOD, "seq": seq, "mask": mask}
+            k += 1
+    # family M: lifetimes of K-1 steps on the methods that issue commands themselves: a first Start followed by 1..12
+    # ticks (the method's own Stop/Restart/Pause/Hold has not begun / is in flight / has completed), then every sequence of
+    # K-2 steps
+    for meth in METHODS:
+        for d0 in METHOD_FIRST_GAPS:
+            for idx in range(nst ** (K - 2)):
+                if k % of == sh:
+                    seq, mask = flatten([("u:Start", d0)] + _steps_from_index(idx, K - 2))
+                    yield "M", {"method": meth, "seq": seq, "mask": mask}
+                k += 1
+    # family S: sampled longer lifetimes over a wider alphabet (pause/hold flags, method-issued Stop/Restart, the method
+    # loaded again between runs), gaps as above for the cycle commands and 0..2 ticks for the others
+    rnd = random.Random(spec["seed"] ^ 0x5EED06)
+    for _ in range(spec["n_rand"]):
+        steps = [("u:Start", rnd.randint(0, 3))]
+        for _j in range(rnd.randint(4, 8)):
+            sym = rnd.choice(WIDE)
+            c = NOMINAL.get(sym[2:])
+            steps.append((sym, rnd.randint(c - 1, c + 2) if c is not None else rnd.randint(0, 2)))
+        seq, mask = flatten(steps)
+        meth = BASE_METHOD if rnd.random() < 0.6 else rnd.choice(METHODS)
+        yield "S", {"method": meth, "seq": seq, "mask": mask}
     # family R: random longer sequences
     rnd = random.Random(spec["seed"])
     for _ in range(spec["n_rand"]):
@@ -133,6 +232,7 @@ def valid(cmd: str, st: str, paused: bool, holding: bool) -> bool:
             "Hold": active and not holding, "Unhold": active and holding}[cmd]
 
 
+_LOCAL_KEYS = ("C06.restarting_without_restart_request_in_this_run", "C06.run_ended_without_stop_or_restart_request")
 _EXEC_SINK: list = [None]
 _probe_installed = [False]
 
@@ -155,7 +255,8 @@ def _install_exec_probe():
         try:
             return orig(self, cmd_request)
         finally:
-            log.append((rig.k, cmd_request.name, str(cmd_request.source), before, rig.e._runstate_started))
+            log.append((rig.k, cmd_request.name, str(cmd_request.source), before, rig.e._runstate_started,
+                        cmd_request))
     _execute_command.__wrapped__ = orig  # type: ignore
     CM.CommandManager._execute_command = _execute_command  # type: ignore
 
@@ -164,13 +265,31 @@ def _ran_after_run_end(execlog, tick):
     """A request began executing in `tick` on an engine whose run had been ended (started True -> False) by an
     earlier request of the same command-manager pass. Returns (ender, late command) or None."""
     ender = None
-    for (k, name, _src, before, after) in execlog:
+    for (k, name, _src, before, after, _rq) in execlog:
         if k != tick:
             continue
         if ender is not None and not before and name != "Start":
             return ender, name
         if before and not after:
             ender = name
+    return None
+
+
+def _interrupted_restart_resumed(execlog, tick):
+    """A Restart request executed in `tick` (or the tick before) that (a) had already begun executing at an earlier
+    tick, (b) has never itself ended or started a run (every earlier execution of it left the run started: it got no
+    further than its first phase), and (c) a Stop request ended the run in between. I.e. a Restart that an accepted Stop
+    interrupted is carried into the next CommandManager and resumed against a later run. Returns the tick at which the
+    request first executed, or None. (A Restart that completed - it ended and started a run - never matches.)"""
+    for (k, name, _src, _before, _after, rq) in execlog:
+        if name != "Restart" or k not in (tick, tick - 1):
+            continue
+        earlier = [e for e in execlog if e[5] is rq and e[0] < min(k, tick)]
+        if not earlier or not all(e[3] and e[4] for e in earlier):
+            continue
+        t1 = earlier[0][0]
+        if any(e[1] == "Stop" and e[3] and not e[4] and t1 < e[0] < k for e in execlog):
+            return t1
     return None
 
 
@@ -185,7 +304,7 @@ def check_case(case, res: Result, kind: str = "?"):
     rig = R.EngineRig(method, hooks=False)
     viol: list[tuple[str | None, str]] = []
     hist: list = []
-    execlog: list[tuple] = []            # (tick, command name, source, started_before, started_after)
+    execlog: list[tuple] = []            # (tick, command name, source, started_before, started_after, request object)
     _install_exec_probe()
     _EXEC_SINK[0] = (rig, execlog)
     try:
@@ -196,6 +315,32 @@ def check_case(case, res: Result, kind: str = "?"):
         stop_deadlines: list[int] = []    # tick numbers by which Stopped must have been seen
         accepted_any = False
         aborted = False
+        # ---- requests so far: accepted from the user + issued by the method (a Start/Stop/Restart line of the method
+        # or of injected code reaching Engine.schedule_execution, the interpreter's only way to command the engine)
+        Q = {"Start": 0, "Stop": 0, "Restart": 0}
+        # transitions so far: Restarting windows opened, distinct run ids shown, run ends shown (at tick ends);
+        # run starts / run ends announced to event listeners (on_start / on_stop)
+        T = {"windows": 0, "ids": 0, "ends": 0, "ev_starts": 0, "ev_stops": 0, "cycles_done": 0,
+             "id_base": 0, "r_base": 0, "fresh_stop": False, "q_at_tick_end": 0, "qr_at_tick_end": 0}
+        orig_sched = rig.e.schedule_execution
+
+        def _sched(name, arguments="", instance_id=None, _orig=orig_sched):
+            if name in Q:
+                Q[name] += 1
+                res.count("method_issued_" + name)
+            return _orig(name=name, arguments=arguments, instance_id=instance_id)
+        rig.e.schedule_execution = _sched  # type: ignore
+
+        from openpectus.lang.exec.events import EventListener
+
+        class _RunEvents(EventListener):
+            def on_start(self, run_id):
+                T["ev_starts"] += 1
+
+            def on_stop(self):
+                super().on_stop()
+                T["ev_stops"] += 1
+        rig.e.emitter.add_listener(_RunEvents())
 
         def reported():
             st = str(rig.e.tags["System State"].get_value())
@@ -209,11 +354,24 @@ def check_case(case, res: Result, kind: str = "?"):
             res.count("states_seen_" + st)
             if cs.is_running and cs.is_paused and cs.is_holding:
                 res.count("paused_and_holding_ticks")
+            # ---- which run is shown: requests known when the tick that first showed this Run Id began (requests made
+            # in the gap before that tick are excluded, i.e. they count as made during this run)
+            empty = rid in (None, "")
+            old_base = (T["id_base"], T["r_base"])
+            if not empty and rid != S["cur_id"]:
+                T["id_base"], T["r_base"] = T["q_at_tick_end"], T["qr_at_tick_end"]
             # ---- rule 1: agreement / Restarting window
             res.count("agree_checks")
             if st == "Restarting":
                 if S["window"] == 0:
                     res.count("restart_windows")
+                    T["windows"] += 1
+                    # rule 1b: a Restarting window needs a Restart requested during the run that is being restarted
+                    res.count("restart_window_justification_checks")
+                    if not empty and Q["Restart"] <= T["r_base"]:
+                        viol.append(("C06.restarting_without_restart_request_in_this_run",
+                                     f"tick {rig.k}: System State Restarting, but no Restart was accepted from the user or "
+                                     f"issued by the method since the run shown ({rid!r}) began"))
                     if S["pending_restart"] <= 0 and not method_restarts:
                         viol.append(("C06.restarting_without_restart", f"tick {rig.k}: System State Restarting but no "
                                      "Restart was accepted from the user or issued by the method so far"))
@@ -237,24 +395,60 @@ def check_case(case, res: Result, kind: str = "?"):
                     S["after_window"] = True
                     S["window"] = 0
                 else:
-                    # NB: Restart requests are never forgotten here. A Restart cancelled by a Stop survives in
-                    # CommandManager.restart_request_pending and restarts the *next* run (seen on the unchanged tree;
-                    # that is C10's business - the tag then truthfully says Restarting during a real restart)
+                    # NB: S["pending_restart"] never forgets a Restart request; the request budget and the per-run
+                    # clauses (rules 1b, 3b, 4) are what ties a window to a request of its own. A Restart interrupted
+                    # by a Stop that survives in CommandManager.restart_request_pending and restarts the *next* run
+                    # (unchanged tree) is caught by rule 1b and named by _interrupted_restart_resumed
                     S["after_window"] = False
             # ---- rule 3: run id
             res.count("runid_checks")
-            empty = rid in (None, "")
             if st == "Stopped" and not empty:
                 viol.append(("C06.run_id_set_while_stopped", f"tick {rig.k}: Stopped but Run Id = {rid!r}"))
             if st != "Stopped" and empty:
                 viol.append(("C06.run_id_empty_while_active", f"tick {rig.k}: state {st} but Run Id empty"))
+            if S["cur_id"] is not None and rid != S["cur_id"]:
+                used_ids.append(S["cur_id"])
+                T["ends"] += 1
+                T["cycles_done"] += 1
+                # ---- rule 3b: the Run Id shown at the last tick end is gone (cleared or replaced): some Stop or
+                # Restart must have been requested since that run began
+                res.count("run_end_justification_checks")
+                if Q["Stop"] + Q["Restart"] <= old_base[0]:
+                    viol.append(("C06.run_ended_without_stop_or_restart_request",
+                                 f"tick {rig.k}: Run Id {S['cur_id']!r} -> {rid!r} although no Stop or Restart was "
+                                 "accepted from the user or issued by the method since that run began"))
             if not empty and rid != S["cur_id"]:
                 if rid in used_ids:
                     viol.append(("C06.run_id_reused", f"tick {rig.k}: Run Id {rid!r} was used by an earlier run"))
                 res.count("new_run_ids")
-            if S["cur_id"] is not None and rid != S["cur_id"]:
-                used_ids.append(S["cur_id"])
+                T["ids"] += 1
+                if T["cycles_done"]:
+                    res.count("runs_after_an_earlier_cycle")
             S["cur_id"] = None if empty else rid
+            # ---- rule 4: every transition is paid for by a request of its own (counting clauses, prefix-closed):
+            # Restarting windows <= Restart requests; runs (distinct ids shown / on_start events) <= Start + Restart
+            # requests; run ends (ids gone / on_stop events) <= Stop + Restart requests. Requests = accepted from the
+            # user + issued by the method so far. Sound because no request does more than one of each.
+            res.count("request_budget_checks")
+            if T["windows"]:
+                res.count("restart_budget_checks_with_window")
+            if T["windows"] > Q["Restart"]:
+                viol.append(("C06.more_restarting_windows_than_restart_requests",
+                             f"tick {rig.k}: {T['windows']} Restarting windows so far but only {Q['Restart']} Restart "
+                             "requests were accepted from the user or issued by the method"))
+            if max(T["ids"], T["ev_starts"]) > Q["Start"] + Q["Restart"]:
+                viol.append(("C06.more_runs_than_start_and_restart_requests",
+                             f"tick {rig.k}: {T['ids']} distinct run ids shown / {T['ev_starts']} run starts announced "
+                             f"so far but only {Q['Start']} Start + {Q['Restart']} Restart requests were accepted from "
+                             "the user or issued by the method"))
+            if max(T["ends"], T["ev_stops"]) > Q["Stop"] + Q["Restart"]:
+                viol.append(("C06.more_run_ends_than_stop_and_restart_requests",
+                             f"tick {rig.k}: {T['ends']} run ids gone / {T['ev_stops']} run ends announced so far but "
+                             f"only {Q['Stop']} Stop + {Q['Restart']} Restart requests were accepted from the user or "
+                             "issued by the method"))
+            # which tick gap is this: the one in which the completion of a Stop/Restart has just been reported?
+            T["fresh_stop"] = (st == "Stopped" and S["prev"] != "Stopped")
+            T["q_at_tick_end"], T["qr_at_tick_end"] = Q["Stop"] + Q["Restart"], Q["Restart"]
             if st != "Stopped":
                 S["nonstopped"] = True
             # ---- bounded progress of an accepted Stop
@@ -294,6 +488,14 @@ def check_case(case, res: Result, kind: str = "?"):
                     break
                 if ok:
                     accepted_any = True
+                    if cmd in Q:
+                        Q[cmd] += 1
+                    if cmd == "Start" and T["cycles_done"]:
+                        res.count("later_cycle_starts")
+                        if T["fresh_stop"]:
+                            res.count("later_cycle_starts_in_completion_gap")
+                            if T["windows"]:
+                                res.count("later_cycle_starts_in_completion_gap_after_a_restart")
                     if cmd == "Restart":
                         S["pending_restart"] += 1
                     if cmd == "Stop":
@@ -311,6 +513,14 @@ def check_case(case, res: Result, kind: str = "?"):
                     aborted = True
                     break
                 hist.append((rig.k, "inj", code))
+            elif sym == RELOAD:
+                # the user loads the (same) method again between two runs: another interpreter reset
+                if st == "Stopped":
+                    rig.e.set_method(R.to_method(method))
+                    res.count("reloads_while_stopped")
+                    hist.append((rig.k, "reload"))
+                else:
+                    res.count("reloads_skipped_not_stopped")
             if tick_after or sym == "tick":
                 rig.tick(catch=True)
                 if rig.tick_exc:
@@ -327,6 +537,13 @@ def check_case(case, res: Result, kind: str = "?"):
                         viol[:] = [("C06.command_executes_after_run_ended_in_same_tick",
                                     m + f" [in this tick {ender} ended the run and the request {name} behind it in the "
                                     "executing list still ran on the stopped engine]") for (_k, m) in viol]
+                    else:
+                        t1 = _interrupted_restart_resumed(execlog, rig.k)
+                        if t1 is not None and all(k in _LOCAL_KEYS for (k, _m) in viol):
+                            viol[:] = [("C06.restart_interrupted_by_stop_resumes_in_next_run",
+                                        m + f" [the Restart request acting here began executing at tick {t1}, was "
+                                        "interrupted by a Stop that ended that run before the Restart had stopped it "
+                                        "itself, and was handed to the next CommandManager]") for (_k, m) in viol]
                     break
         if aborted:
             res.count("cases_aborted")
@@ -359,6 +576,11 @@ def run_shard(spec):
     res.exhaustive_parts.append(f"all {n}^{L - 1} sequences of {L - 1} symbols x all {2 ** (L - 1) - 1} other tick masks")
     res.exhaustive_parts.append(f"all {n}^{L - 1} sequences of {L - 1} symbols on each of {len(METHODS)} methods that "
                                 "issue Stop/Restart/Pause/Hold themselves")
+    nst = len(CYCLE_STEPS)
+    res.exhaustive_parts.append(f"lifetimes, base method: first Start followed by 0..3 ticks x all {nst}^{L - 1} sequences "
+                                f"of {L - 1} (cycle command, gap) steps, gap = nominal completion -1 .. +2 ticks")
+    res.exhaustive_parts.append(f"lifetimes, each of {len(METHODS)} self-commanding methods: first Start followed by "
+                                f"1..{METHOD_FIRST_GAPS[-1]} ticks x all {nst}^{L - 2} sequences of {L - 2} steps")
     return res
 
 
